@@ -7,7 +7,9 @@
 EXTENDS Codecs, TLC
 
 CONSTANTS MaxContent, MaxChunks, MaxChunk,
-          MaxSeq          \* steps per history of successive Consume calls (Part A2)
+          MaxSeq,         \* steps per history of successive Consume calls (Part A2)
+          SeqReaders,     \* concrete reader kinds used in histories (subset of SeqReaderKinds)
+          SeqDeepReaders  \* those also used in histories of more than 2 steps
 
 ContentBytes == [i \in 1..MaxContent |-> i]
 
@@ -70,15 +72,19 @@ PickProducer(codec) ==
 (* Part A2: histories of successive Consume calls, grown step by step *)
 SeqContents == { <<1>>, <<2, 3>>, <<4, 5, 6>>, <<>> }
 SeqSteps(h) ==
-  { [op |-> "consume", dst |-> d, content |-> ct, target |-> 0] : d \in SeqDst, ct \in SeqContents }
-  \cup { [op |-> "mutate", dst |-> "", content |-> <<>>, target |-> t] :
+  { [op |-> "consume", dst |-> d, content |-> ct, target |-> 0, rkind |-> rk] : d \in SeqDst, ct \in SeqContents, rk \in SeqReaders }
+  \cup { [op |-> "mutate", dst |-> "", content |-> <<>>, target |-> t, rkind |-> ""] :
            t \in { j \in 1..Len(h) : h[j].op = "consume" /\ h[j].dst \in ByteKindDst } }
+  \cup { [op |-> "srcmutate", dst |-> "", content |-> <<>>, target |-> t, rkind |-> ""] :
+           t \in { j \in 1..Len(h) : h[j].op = "consume" /\ h[j].rkind # "script" /\ h[j].content # <<>> } }
 
 GrowSeq ==
   /\ kind \in {"none", "seq"}
   /\ LET h == IF kind = "none" THEN <<>> ELSE cfg.hist IN
      /\ Len(h) < MaxSeq
      /\ \E st \in SeqSteps(h) :
+          /\ LET h2 == Append(h, st) IN
+             Len(h2) <= 2 \/ \A i \in 1..Len(h2) : h2[i].op = "consume" => h2[i].rkind \in SeqDeepReaders
           /\ kind' = "seq" /\ cfg' = [hist |-> Append(h, st)]
           /\ out' = SeqRun(cfg'.hist, Len(cfg'.hist))
 
